@@ -64,3 +64,50 @@ def build(tier, workdir, seed):
             'coverage_extra': {'steps': [1, 3] if tier == 'quick' else [1, 2, 3, 7],
                                'not_reached': ['xoptional_iterator / xcomplex_iterator (pairs of sub-iterators)', 'xkey_iterator / xvalue_iterator over std::map (node iterators)', 'xrandom_access_iterator_ext size_t overloads',
                                                'full-traversal lemma for the stepping iterator (proved for the bitset iterator)', 'reverse_iterator adaptors']}}
+
+
+REPLAY = r'''
+// C12 replay on the real headers: the iterator laws on xbitset_iterator and xstepping_iterator for every pair of positions of
+// small containers and every offset that stays in range.  Exit 1 = a law fails (printed).
+#include <xtl/xdynamic_bitset.hpp>
+#include <xtl/xiterator_base.hpp>
+#include <cstdio>
+#include <vector>
+#define FAIL(...) do { std::printf(__VA_ARGS__); std::printf("\n"); return 1; } while (0)
+template <class It> static int laws(It begin, long n, const char* what)
+{
+    for (long i = 0; i <= n; ++i) { It a = begin + i;
+        if ((a - begin) != i) FAIL("%s: (begin + %ld) - begin = %ld", what, i, (long)(a - begin));
+        for (long j = 0; j <= n; ++j) { It b = begin + j; long d = j - i;
+            if ((b - a) != d) FAIL("%s: it(%ld) - it(%ld) = %ld", what, j, i, (long)(b - a));
+            if (!((a + d) == b) || !((d + a) == b) || !((b - d) == a)) FAIL("%s: (it + n) / (n + it) / (it - n) disagree at %ld, n = %ld", what, i, d);
+            { It c = a; c += d; if (!(c == b)) FAIL("%s: += %ld from %ld", what, d, i); c -= d; if (!(c == a)) FAIL("%s: -= %ld", what, d); }
+            if ((a < b) != (i < j) || (a <= b) != (i <= j) || (a > b) != (i > j) || (a >= b) != (i >= j) || (a == b) != (i == j) || (a != b) != (i != j)) FAIL("%s: comparison of positions %ld and %ld", what, i, j);
+        }
+        if (i < n) { It c = a; It old = c++; if (!(old == a) || !(c == a + 1)) FAIL("%s: postfix ++ at %ld", what, i); It e = a; ++e; if (!(e == a + 1)) FAIL("%s: prefix ++ at %ld", what, i); }
+        if (i > 0) { It c = a; It old = c--; if (!(old == a) || !(c == a - 1)) FAIL("%s: postfix -- at %ld", what, i); It e = a; --e; if (!(e == a - 1)) FAIL("%s: prefix -- at %ld", what, i); }
+    }
+    return 0;
+}
+int main()
+{
+    for (std::size_t n : {0u, 1u, 7u, 8u, 9u, 17u, 40u}) {
+        xtl::xdynamic_bitset<unsigned char> b(n, false); for (std::size_t k = 0; k < n; k += 3) b.set(k, true);
+        if (laws(b.begin(), (long)n, "bitset iterator")) return 1;
+        long k = 0; for (auto it = b.begin(); it != b.end(); ++it, ++k) { if (bool(*it) != bool(b[(std::size_t)k]) || bool(b.begin()[k]) != bool(b[(std::size_t)k]) || bool(*(b.begin() + k)) != bool(b[(std::size_t)k])) FAIL("bitset iterator: element %ld through *it / it[n] / *(it+n)", k); }
+        if (k != (long)n) FAIL("bitset iterator: begin..end visits %ld of %zu bits", k, n);
+        const auto& cb = b; if (laws(cb.cbegin(), (long)n, "const bitset iterator")) return 1; }
+    for (long step : {1L, 2L, 3L, 7L}) for (long m : {0L, 1L, 5L, 12L}) {
+        std::vector<int> v((std::size_t)(m * step + 1)); for (std::size_t k = 0; k < v.size(); ++k) v[k] = (int)k;
+        xtl::xstepping_iterator<int*> it(v.data(), step);
+        if (laws(it, m, "stepping iterator")) return 1;
+        for (long k = 0; k < m; ++k) if (*(it + k) != (int)(k * step) || it[k] != (int)(k * step)) FAIL("stepping iterator (step %ld): element %ld", step, k); }
+    return 0;
+}
+'''
+
+
+def replay(ctx, job, ob, steps, base):
+    from xv.prop import native_run
+    rc, out = native_run(REPLAY, base, extra=['-fsanitize=address,undefined', '-fno-sanitize=shift,null', '-fno-sanitize-recover=all', '-O1'], timeout=300)
+    return (rc not in (0, None), (out or '')[-2000:] + '\nprogram: %s.cpp (g++ -fsanitize=address,undefined)' % base)
